@@ -550,6 +550,51 @@ fn main() {
                     matched_line(&g, n, &arg(1))
                 },
             },
+            "K" => {
+                // the constant constructors and `any` over build RESULTS (Pattern for Result<T, BuildError>)
+                let brief = |g: &Glob<'_>| format!("{} | {} | {} empty={} shown={}", g.verif_tokens(), hex(g.verif_pattern()), queries(g), u8::from(g.is_empty()), hex(&g.to_string()));
+                let e = brief(&Glob::empty()) == brief(&Glob::new("").unwrap());
+                let t = brief(&Glob::tree()) == brief(&Glob::new("**").unwrap());
+                let es: Vec<String> = args.iter().map(|x| unhex(x)).collect();
+                let by_text = wax::any(es.iter().map(|x| x.as_str())).map(|a| any_summary(&a)).unwrap_or_else(|e| error_line(&e));
+                let by_results = wax::any(es.iter().map(|x| Glob::new(x.as_str()))).map(|a| any_summary(&a)).unwrap_or_else(|e| error_line(&e));
+                format!(
+                    "empty={} tree={} any-results={}",
+                    if e { "same" } else { "DIFF" },
+                    if t { "same" } else { "DIFF" },
+                    if by_text == by_results { "same".to_string() } else { format!("DIFF<{}|{}>", by_text, by_results) }
+                )
+            },
+            "CP" => match Glob::new(&arg(0)) {
+                // a candidate path given as &str, &Path, &OsStr, owned; and raw bytes that are not UTF-8 (lossy)
+                Err(_) => "err".to_string(),
+                Ok(g) => {
+                    use std::os::unix::ffi::OsStrExt;
+                    let p = arg(1);
+                    let n = g.captures().count();
+                    let show = |c: CandidatePath<'_>| -> String {
+                        let is = g.is_match(c.clone());
+                        let m = g.matched(&c).map(|m| (0..=n).map(|i| m.get(i).map(hex).unwrap_or_else(|| "n".into())).collect::<Vec<_>>().join(","));
+                        format!("{}:{}:{}", u8::from(is), hex(c.as_ref()), m.unwrap_or_else(|| "-".into()))
+                    };
+                    let by_str = show(CandidatePath::from(p.as_str()));
+                    let by_path = show(CandidatePath::from(std::path::Path::new(&p)));
+                    let by_os = show(CandidatePath::from(std::ffi::OsStr::new(&p)));
+                    let by_owned = show(CandidatePath::from(p.as_str()).into_owned());
+                    // the same text with a byte that is not UTF-8 spliced into the middle: read as U+FFFD
+                    let mut raw = p.as_bytes().to_vec();
+                    let mid = (0..=raw.len() / 2).rev().find(|i| p.is_char_boundary(*i)).unwrap_or(0);
+                    raw.insert(mid, 0xff);
+                    let lossy = String::from_utf8_lossy(&raw).to_string();
+                    let by_raw = show(CandidatePath::from(std::ffi::OsStr::from_bytes(&raw)));
+                    let by_lossy = show(CandidatePath::from(lossy.as_str()));
+                    format!(
+                        "routes={} raw={}",
+                        if by_str == by_path && by_str == by_os && by_str == by_owned { "same".to_string() } else { format!("DIFF<{}|{}|{}|{}>", by_str, by_path, by_os, by_owned) },
+                        if by_raw == by_lossy { "same".to_string() } else { format!("DIFF<{}|{}>", by_raw, by_lossy) }
+                    )
+                },
+            },
             "MO" => match Glob::new(&arg(0)) {
                 Err(_) => "err".to_string(),
                 Ok(g) => matched_offsets(&g, &arg(1)),
